@@ -90,6 +90,10 @@ ECTX = {
     'set': lambda E, k: '{%s}' % E,
     'dictv': lambda E, k: '{1: %s}' % E,
     'unary': lambda E, k: '(-%s)' % E,
+    'invert': lambda E, k: '(~%s)' % E,
+    'uplus': lambda E, k: '(+%s)' % E,
+    # 120 levels below the statement (a left-nested chain): converters must still reach the construct
+    'deepchain': lambda E, k: '(%s%s)' % (E, ' + 1' * 120),
     'printarg': lambda E, k: 'print(%s, file=NULLF)' % E,
     'printkw': lambda E, k: 'print(1, end=str(%s), file=NULLF)' % E,
 }
